@@ -1,1 +1,112 @@
--- property theorems for C07 (stub)
+import RP.Model.Equity
+/-! # C07 — River equity is the exact win/loss enumeration and ignores suit labels
+
+Generic part (this file): theorems about the counting fold of `Observation::equity` for *any*
+strength key and *any* villain list:
+
+* `C07_counts`     : the fold returns `(#{v : v < hero}, #{v : v ≠ hero})` — exactly wins and
+                     wins+losses over the enumerated holdings; ties are dropped;
+* `C07_wins_le`    : wins ≤ total, hence the exact quotient lies in `[0,1]`; all-tie ↦ one half;
+* `C07_perm`       : the result does not depend on the order of enumeration;
+* `C07_invariant`  : if a relabeling `ρ` preserves strength keys and maps the villain holdings of
+                     one observation onto those of the other (up to order), both observations get
+                     the same `(wins,total)`, hence bit-identical `f32` equity, the same river bucket —
+                     and two turn observations whose children correspond get the same histogram.
+
+The instantiation with the evaluator model (suit-blind keys: C01) and the hand-iterator model
+(the 2-card holdings avoiding the seen cards: C06) is in `RP/Props/C07Inst.lean`. -/
+namespace RP.C07
+open RP.Equity
+
+theorem counts_foldl (hero : Nat) (vs : List Nat) (a b : Nat) :
+    vs.foldl (fun (acc : Nat × Nat) v =>
+      if v < hero then (acc.1 + 1, acc.2 + 1) else if hero < v then (acc.1, acc.2 + 1) else acc) (a, b)
+    = (a + (vs.filter (· < hero)).length, b + (vs.filter (· ≠ hero)).length) := by
+  induction vs generalizing a b with
+  | nil => simp
+  | cons v vs ih =>
+    simp only [List.foldl_cons]
+    by_cases h1 : v < hero
+    · have h2 : v ≠ hero := by omega
+      simp only [h1, if_true, ih, List.filter_cons, decide_true, h2, ne_eq, not_false_eq_true,
+        List.length_cons]
+      ext <;> simp <;> omega
+    · by_cases h2 : hero < v
+      · have h3 : v ≠ hero := by omega
+        simp only [h1, h2, if_false, if_true, ih, List.filter_cons, decide_false, h3, ne_eq,
+          not_false_eq_true, decide_true, List.length_cons]
+        ext <;> simp <;> omega
+      · have h3 : v = hero := by omega
+        simp only [h1, h2, if_false, ih, List.filter_cons, decide_false, h3, ne_eq, not_true_eq_false]
+        simp
+
+/-- **Exact enumeration**: wins = number of holdings strictly weaker than the hero, total = number
+    of holdings not tying with the hero. -/
+theorem C07_counts (hero : Nat) (vs : List Nat) :
+    counts hero vs = ((vs.filter (· < hero)).length, (vs.filter (· ≠ hero)).length) := by
+  unfold counts
+  rw [counts_foldl]; simp
+
+theorem filter_length_mono (p q : Nat → Bool) (hpq : ∀ x, p x = true → q x = true) (vs : List Nat) :
+    (vs.filter p).length ≤ (vs.filter q).length := by
+  induction vs with
+  | nil => simp
+  | cons v vs ih =>
+    simp only [List.filter_cons]
+    cases hp : p v with
+    | true => simp only [hpq v hp, if_true, List.length_cons]; omega
+    | false =>
+      cases hq : q v with
+      | true => simp only [if_true, List.length_cons]; simp; omega
+      | false => simpa using ih
+
+theorem C07_wins_le (hero : Nat) (vs : List Nat) : (counts hero vs).1 ≤ (counts hero vs).2 := by
+  rw [C07_counts]
+  exact filter_length_mono _ _ (by intro x hx; simp at hx ⊢; omega) vs
+
+theorem C07_total_le (hero : Nat) (vs : List Nat) : (counts hero vs).2 ≤ vs.length := by
+  rw [C07_counts]; exact List.length_filter_le _ _
+
+/-- order of enumeration is irrelevant -/
+theorem C07_perm (hero : Nat) {vs vs' : List Nat} (h : vs.Perm vs') : counts hero vs = counts hero vs' := by
+  rw [C07_counts, C07_counts, (h.filter _).length_eq, (h.filter _).length_eq]
+
+/-- **Suit-relabeling invariance** in its generic form: `key` is the strength key of a card set,
+    `ρ` a relabeling of card sets that preserves keys; if the holdings enumerated for the second
+    observation are (in any order) the images of those enumerated for the first, both get the same
+    `(wins, total)`. -/
+theorem C07_invariant {Hand : Type} (key : Hand → Nat) (ρ : Hand → Hand)
+    (hkey : ∀ h, key (ρ h) = key h) (hero : Hand) (vs vs' : List Hand)
+    (hvs : vs'.Perm (vs.map ρ)) :
+    counts (key (ρ hero)) (vs'.map key) = counts (key hero) (vs.map key) := by
+  rw [hkey]
+  have : (vs'.map key).Perm (vs.map key) := by
+    have h1 := hvs.map key
+    have h2 : (vs.map ρ).map key = vs.map key := by
+      rw [List.map_map]; apply List.map_congr_left; intro h _; exact hkey h
+    rw [h2] at h1; exact h1
+  exact C07_perm _ this
+
+/-- consequently the `f32` equity and the river bucket coincide (they are functions of the counts) -/
+theorem C07_bucket_invariant {Hand : Type} (n : Nat) (key : Hand → Nat) (ρ : Hand → Hand)
+    (hkey : ∀ h, key (ρ h) = key h) (hero : Hand) (vs vs' : List Hand)
+    (hvs : vs'.Perm (vs.map ρ)) :
+    bucket n (key (ρ hero)) (vs'.map key) = bucket n (key hero) (vs.map key) := by
+  unfold bucket; rw [C07_invariant key ρ hkey hero vs vs' hvs]
+
+/-- the next-street histogram only depends on the multiset of child buckets -/
+theorem C07_histogram_perm (n : Nat) {bs bs' : List Nat} (h : bs.Perm bs') :
+    histogram n bs = histogram n bs' := by
+  unfold histogram
+  congr 1
+  apply List.map_congr_left
+  intro i _
+  rw [(h.filter _).length_eq]
+
+-- non-vacuity: hero key 5 against holdings with keys [3, 5, 7, 1, 5, 9] : wins 2 of 4 non-ties
+example : counts 5 [3, 5, 7, 1, 5, 9] = (2, 4) := by decide
+example : counts 5 [5, 5] = (0, 0) := by decide
+example : (equityF32 (2, 4)).toBits = 0x3F000000 := by decide
+example : quantize 100 (equityF32 (666, 990)) = 67 := by decide
+
+end RP.C07
